@@ -1,7 +1,9 @@
 (* C02 model driver: `open C02_m`, conv.inc and Common are prepended by bin/setup.
    Case grammar (see checks/C02.py):   root a b acc  fam np p1..pnp  <fexpr>
    Output: result  warn(1 = maximum-iteration return)  number of evaluations  the abscissae in call order;  or EXIT
-   (op both: the same for Find_Root(a,b) and then for Find_Root(b,a)) *)
+   (op both: the same for Find_Root(a,b) and then for Find_Root(b,a))
+   seq k  <a b acc fam np p1..pnp fexpr> x k : k requests served one after the other by one process; output: the k answers
+   in order, or EXIT when one of the calls ends the process *)
 open Common
 let skip_family r = let _ = word r in let n = integer r in for _ = 1 to n do ignore (num r) done
 let handler r =
@@ -18,5 +20,18 @@ let handler r =
            put_f x; put_b (h = HMaxIter); put_fl tr; put_f y; put_b (h2 = HMaxIter); put_fl tr2
        | (Exit, _), _ | _, (Exit, _) -> put_w "EXIT"
        | _ -> put_w "OOB")
+  | "seq" -> let k = integer r in
+      let rec reqs i = if i = 0 then [] else
+        let a = num r in let b = num r in let acc = num r in
+        skip_family r; let f = fun1 (parse_fexpr r) in
+        let q = (((f, a), b), acc) in q :: reqs (i - 1) in
+      let rs = reqs k in
+      let outs = find_root_seq fops rs in
+      if List.exists (fun (o, _) -> match o with Ok _ -> false | _ -> true) outs then
+        put_w (match List.find (fun (o, _) -> match o with Ok _ -> false | _ -> true) outs with
+               | (Exit, _) -> "EXIT" | (OOB, _) -> "OOB" | _ -> "FUEL")
+      else List.iter (fun (o, tr) -> match o with
+                       | Ok (x, h) -> put_f x; put_b (h = HMaxIter); put_fl tr
+                       | _ -> ()) outs
   | o -> put_w ("MODELERR unknown_op_" ^ o)
 let () = run handler
